@@ -1,5 +1,5 @@
 import sys, time
-sys.path.insert(0,'/verif/.deps'); sys.path.insert(0,'/verif')
+import os; H=os.path.dirname(os.path.dirname(os.path.abspath(__file__))); sys.path.insert(0,H+'/.deps'); sys.path.insert(0,H)
 import z3
 from pyvc.frontend import Program
 from pyvc import verify, smt
